@@ -470,7 +470,7 @@ QUICK = {"restrict-line": 40, "restrict-tri": 90, "restrict-quad": 70, "restrict
          "restrict-wedge": 40, "cleanup": 150, "join-add": 150, "join-add-fine-coordinates": 40, "join-matmul": 150,
          "split-quad": 100, "split-3d": 60, "extrude": 70, "transform": 240, "trace": 70, "tagging": 100,
          "sequences": 250}
-THOROUGH_FACTOR = 60
+THOROUGH_FACTOR = 40
 _FNS = {"cleanup": fam_cleanup, "join-add": fam_add(8), "join-add-fine-coordinates": fam_add(None),
         "join-matmul": fam_matmul, "split-quad": fam_split_quad, "split-3d": fam_split_3d, "extrude": fam_extrude,
         "transform": fam_transform, "trace": fam_trace, "tagging": fam_tagging, "sequences": fam_chains}
